@@ -120,7 +120,9 @@ def run_opt_case(body, stats, case):
     from vf.checks import c03
 
     universe, leaves, S, base, final, *rest = body
-    T = 1
+    from vf.core.prog import engine_of as _engine_of
+
+    T = _engine_of(base, leaves)
     third = ({0, 1, 2} - {S, T}).pop()
     env = Env(leaves)
     try:
